@@ -13,6 +13,7 @@ pub mod c07;
 pub mod c08;
 pub mod c10;
 pub mod c11;
+pub mod c12;
 pub mod c13;
 pub mod c14;
 pub mod c19;
@@ -55,6 +56,7 @@ pub fn run(id: &str, tier: Tier) -> i32 {
         "C08" => c08::run(tier),
         "C10" => c10::run(tier),
         "C11" => c11::run(tier),
+        "C12" => c12::run(tier),
         "C13" => c13::run(tier),
         "C14" => c14::run(tier),
         "C19" => c19::run(tier),
@@ -79,6 +81,7 @@ pub fn replay(id: &str, file: &serde_json::Value) -> i32 {
         "C08" => c08::replay,
         "C10" => c10::replay,
         "C11" => c11::replay,
+        "C12" => c12::replay,
         "C13" => c13::replay,
         "C14" => c14::replay,
         "C19" => c19::replay,
